@@ -250,6 +250,9 @@ struct World
 	void exec(Op const& o)
 	{
 		if (o.op == "timer") start_timer(int(uint64_t(o.a) % k_nt), o.b);
+		else if (o.op == "tcancel") { int const i = int(uint64_t(o.a) % k_nt); if (timers[i]) { Init in(this); timers[i]->cancel(); } }
+		else if (o.op == "twait") timer_wait_only(int(uint64_t(o.a) % k_nt));
+		else if (o.op == "close") scripted_close(int(uint64_t(o.a) % (k_nc + k_ns)));
 		else if (o.op == "listen") do_listen();
 		else if (o.op == "accept") start_accept(int(uint64_t(o.a) % 3), int(uint64_t(o.b) % k_ns));
 		else if (o.op == "connect") start_connect(int(uint64_t(o.a) % k_nc), int(o.b & 1));
@@ -270,6 +273,26 @@ struct World
 		Init in(this);
 		timers[i]->expires_after(duration(std::max<int64_t>(1, delay)));
 		timers[i]->async_wait(Tracked(new_rec(P_TIMER, me), this));
+	}
+
+	// a wait without (re-)arming: after a cancel the expiry is still in force
+	void timer_wait_only(int i)
+	{
+		Obj const me{O_TIMER, i};
+		if (!timers[i] || outstanding_on(me)) return;
+		Init in(this);
+		timers[i]->async_wait(Tracked(new_rec(P_TIMER, me), this));
+	}
+
+	void scripted_close(int side)
+	{
+		tcp::socket* s = sock_of(side);
+		if (!s || !s->is_open()) return;
+		// not the socket an outstanding accept is going to fill
+		if (side >= k_nc && accept_variant != 2 && accept_slot == side - k_nc && op_outstanding(Obj{O_ACCEPTOR, 0}, P_ACCEPT)) return;
+		error_code ec;
+		Init in(this);
+		s->close(ec);
 	}
 
 	void do_listen()
@@ -528,8 +551,10 @@ struct World
 					{
 						int const sl = (accept_slot + 1) % k_ns;
 						if (outstanding_on(Obj{O_SLOT, sl})) continue;
-						if (!slots[sl]) { slots[sl].reset(new tcp::socket(*nodeB)); ++gen[Obj{O_SLOT, sl}]; }
-						issue_accept((accept_variant + 1) % 2, sl);
+						// every overload gets to supersede every overload over the boundaries of a scenario
+						int const v = int(uint64_t(iv_k) % 3);
+						if (v != 2 && !slots[sl]) { slots[sl].reset(new tcp::socket(*nodeB)); ++gen[Obj{O_SLOT, sl}]; }
+						issue_accept(v, sl);
 						reissued.insert(k);
 					}
 					else if (k == P_UDP_RECV || k == P_UDP_WAIT_R)
@@ -676,6 +701,9 @@ void Tracked::fire(error_code const& ec)
 	r->t_done = now_ns();
 	if (w->initiating > 0) r->inline_call = true;
 	armed = false;
+	// a server that greets: write on the accepted socket as soon as the accept completes
+	if (r->op == P_ACCEPT && !ec && w->plan.c("accept_write") && w->slots[r->aux] && w->slots[r->aux]->is_open())
+		w->start_write(k_nc + r->aux, w->plan.c("accept_write"));
 	w->throw_next_check();
 }
 
@@ -690,9 +718,10 @@ struct LifecycleEngine : Engine
 	std::string name() const override { return "lifecycle"; }
 	std::vector<std::string> props() const override { return {"C04", "C12"}; }
 
-	Plan generate(std::string const& prop, Rng& rng, int) override
+	Plan generate(std::string const& prop, Rng& rng, int tier) override
 	{
 		Plan p;
+		p.cfg["max_boundaries"] = tier ? 160 : 50; // boundaries enumerated per scenario (stride-sampled beyond)
 		bool const c12 = prop == "C12";
 		// network: sometimes lossy on A's path (bottleneck behind a fast hop)
 		bool const lossy = rng.chance(c12 ? 0.6 : 0.3);
@@ -701,11 +730,34 @@ struct LifecycleEngine : Engine
 		p.cfg["corelat"] = rng.pick(std::vector<int64_t>{0, 2000000, 10000000});
 		p.cfg["bw"] = lossy ? rng.pick(std::vector<int64_t>{100000, 500000, 2000000}) : 0;
 		p.cfg["cap"] = lossy ? rng.pick(std::vector<int64_t>{1600, 3100, 4700}) : 0;
-		p.cfg["capb"] = (lossy && rng.chance(0.5)) ? 3100 : 0;
+		p.cfg["capb"] = (lossy && rng.chance(0.5)) ? rng.pick(std::vector<int64_t>{3100, 1530, 1600}) : 0;
+		p.cfg["accept_write"] = rng.chance(0.35) ? int64_t(rng.range(1, 2)) : 0;
 		int const nops = int(rng.range(3, 14));
 		std::vector<Op>& ops = p.ops;
 		auto add = [&](char const* name, int64_t a, int64_t b, int64_t c, int64_t at) { Op o; o.op = name; o.a = a; o.b = b; o.c = c; o.at = at; ops.push_back(o); };
 		auto gap = [&]() { return rng.pick(std::vector<int64_t>{0, 0, 1000, 1000000, 7000000, 30000000}); };
+		// two multi-step sequences that random mixing almost never produces
+		double const cls = rng.unit();
+		if (cls < 0.12)
+		{
+			// a timer that is cancelled and waited on again without being re-armed
+			int64_t const t = int64_t(rng.below(2));
+			add("timer", t, rng.pick(std::vector<int64_t>{25000000, 90000000}), 0, 0);
+			add("tcancel", t, 0, 0, rng.pick(std::vector<int64_t>{0, 1000, 1000000}));
+			add("twait", t, 0, 0, rng.pick(std::vector<int64_t>{0, 1000, 1000000}));
+		}
+		else if (cls < 0.24)
+		{
+			// a greeting dropped whole behind the SYN-ACK (retransmission timeout armed), then the peer leaves
+			p.cfg["capb"] = rng.pick(std::vector<int64_t>{1530, 1600});
+			p.cfg["lat"] = rng.pick(std::vector<int64_t>{1000000, 3000000});
+			p.cfg["accept_write"] = int64_t(rng.range(1, 2));
+			add("listen", 0, 0, 0, 0);
+			add("accept", int64_t(rng.below(3)), 0, 0, 0);
+			add("connect", 0, 0, 0, 1000);
+			add("read", k_nc + 0, 0, 0, rng.pick(std::vector<int64_t>{7000000, 30000000}));
+			add("close", 0, 0, 0, rng.pick(std::vector<int64_t>{1000000, 7000000, 30000000}));
+		}
 		bool const tcp_part = rng.chance(0.75);
 		bool const late_listen = rng.chance(0.15);
 		if (tcp_part && !late_listen) add("listen", 0, 0, 0, 0);
@@ -724,8 +776,11 @@ struct LifecycleEngine : Engine
 			else if (u < 0.72) add("udp_bind", int64_t(rng.below(2)), int64_t(rng.below(2)), 0, at);
 			else if (u < 0.82) add("udp_recv", int64_t(rng.below(2)), int64_t(rng.below(4)), 0, at);
 			else if (u < 0.90) add("udp_send", int64_t(rng.below(2)), int64_t(rng.below(2)), int64_t(rng.below(12)), at);
-			else if (u < 0.97) add("resolve", int64_t(rng.below(2)), int64_t(rng.below(4)), 0, at);
-			else add("listen", 0, 0, 0, at);
+			else if (u < 0.95) add("resolve", int64_t(rng.below(2)), int64_t(rng.below(4)), 0, at);
+			else if (u < 0.97) add("listen", 0, 0, 0, at);
+			else if (u < 0.985) add("tcancel", int64_t(rng.below(2)), 0, 0, at);
+			else add("twait", int64_t(rng.below(2)), 0, 0, at);
+			if (rng.chance(0.06)) add("close", int64_t(rng.below(4)), 0, 0, gap());
 		}
 		return p;
 	}
@@ -778,7 +833,8 @@ struct LifecycleEngine : Engine
 		ctx.tr.rec("clean", {int64_t(N), int64_t(cleanw->recs.size())}, {});
 		for (auto const& r : cleanw->recs) ctx.hit((std::string("op_") + k_op_names[r->op]).c_str());
 		// 2. every boundary (stride-sampled when long) x intervention x object
-		size_t const stride = N > 160 ? (N + 159) / 160 : 1;
+		size_t const maxb = size_t(std::max<int64_t>(10, plan.c("max_boundaries", 160)));
+		size_t const stride = N > maxb ? (N + maxb - 1) / maxb : 1;
 		uint64_t interventions = 0;
 		std::set<std::pair<int, int>> kinds_hit;
 		for (size_t k = 0; k < N && !ctx.violated; k += stride)
@@ -844,7 +900,7 @@ struct LifecycleEngine : Engine
 		return s + "evaluations = base scenarios; sub_executions (in fault_and_reach_counters) = individual executions. distinct = distinct shape hash of (boundaries, operations, interventions); "
 			"non-trivial = at least 10 interventions over at least 3 (intervention, object kind) pairs";
 	}
-	int64_t budget(std::string const& prop, int tier) const override { return prop == "C04" ? (tier ? 6000 : 220) : (tier ? 3000 : 100); }
+	int64_t budget(std::string const& prop, int tier) const override { return prop == "C04" ? (tier ? 6000 : 180) : (tier ? 3000 : 80); }
 	std::vector<std::string> stub_components() const override
 	{ return {"sim::configuration implementation (fw/net.hpp)", "tracked completion handlers, scripted scenario driver, intervention applier via the guarded step hook", "bystander transfer and timer"}; }
 	std::vector<std::string> assumptions(std::string const&) const override
